@@ -206,12 +206,17 @@ structure Ops (P : Type) where
   moveFirst : P → P → P × P × Bool
   append : P → P → P
   nodes : P → Nat
+  /-- `len(res) > 0 && req.ld.ResourceLogs().Len() == 0` at the end of `split()`: the receiver is not returned when nothing
+  is left in it (regenerated flag `splitDropsEmptyRemainder`: on a tree without that check this is constantly `false`) -/
+  empty : P → Bool
 
 def logsOps (sz : Sizer) : Ops (List Res) :=
-  { size := payloadSize sz, extract := extract sz, moveFirst := moveFirst, append := (· ++ ·), nodes := nodes }
+  { size := payloadSize sz, extract := extract sz, moveFirst := moveFirst, append := (· ++ ·), nodes := nodes,
+    empty := fun p => OtelVerif.Gen.C04Shape.splitDropsEmptyRemainder && p.isEmpty }
 
 def metricsOps (keep : Bool) (sz : Sizer) : Ops (List MRes) :=
-  { size := mpayloadSize sz, extract := mextract keep sz, moveFirst := mmoveFirst, append := (· ++ ·), nodes := mnodes }
+  { size := mpayloadSize sz, extract := mextract keep sz, moveFirst := mmoveFirst, append := (· ++ ·), nodes := mnodes,
+    empty := fun p => OtelVerif.Gen.C04Shape.splitDropsEmptyRemainder && p.isEmpty }
 
 /-- `logsRequest{ld, cachedSize}`; `cachedSize == -1` means "not computed" -/
 structure Req (P : Type) where
@@ -242,8 +247,19 @@ def splitLoop {P : Type} (o : Ops P) (max : Int) : Nat → Req P → List (Req P
 
 /-- `req.split(maxSize, sz)`: every iteration removes at least one node from `req`, so `nodes + 1` iterations suffice
 (`C04_terminates`) -/
-def split {P : Type} (o : Ops P) (max : Int) (req : Req P) : Option (List (Req P)) :=
+def splitRaw {P : Type} (o : Ops P) (max : Int) (req : Req P) : Option (List (Req P)) :=
   splitLoop o max (o.nodes req.p + 1) req []
+
+/-- the end of `split()`: `if len(res) > 0 && req.ld.ResourceLogs().Len() == 0 { return res }` - when every remaining item
+had to be sent alone the receiver ends up without any resource entry; it is then not returned (an empty request would be
+exported as a batch without data and its outcome reported to the incoming request) -/
+def dropEmptyLast {P : Type} (o : Ops P) (rs : List (Req P)) : List (Req P) :=
+  match rs.getLast? with
+  | some l => if rs.length > 1 && o.empty l.p then rs.dropLast else rs
+  | none => rs
+
+def split {P : Type} (o : Ops P) (max : Int) (req : Req P) : Option (List (Req P)) :=
+  (splitRaw o max req).map (dropEmptyLast o)
 
 /-- `req2.mergeTo(req, sz)` -/
 def mergeTo {P : Type} (o : Ops P) (dst src : Req P) : Req P :=
@@ -256,6 +272,15 @@ def mergeSplit {P : Type} (o : Ops P) (max : Int) (r1 : Req P) (r2 : Option (Req
     | none => r1
   if max == 0 then some [r] else split o max r
 
+/-- whether the receiver is among the results (as the last one): always, except when `split()` found it emptied -/
+def mergeSplitKeepsReceiver {P : Type} (o : Ops P) (max : Int) (r1 : Req P) (r2 : Option (Req P)) : Bool :=
+  let r := match r2 with
+    | some r2 => mergeTo o r1 r2
+    | none => r1
+  if max == 0 then true else
+  match splitRaw o max r with
+  | some rs => (dropEmptyLast o rs).length == rs.length
+  | none => true
 
 /-! ## batcher bookkeeping (`queuebatch/default_batcher.go`) -/
 
